@@ -15,6 +15,9 @@ def harnesses(tier):
             what='MemorySpace::free_buffer resets the buffer before releasing the slot: every free slot has size 0 afterwards (the pool invariant H1 assumes), occupancy decreases by one', bound='pool of 3 buffers, arbitrary valid state'),
          AHarness('H4_batch', 'c01_packets.cpp', 'h_h4_batch', defs=dd, cflags=cf, unwind=5, timeout=900, native_replay=False,
             what='DistributedPhotonSource::get_photon_batch inductive step from any done <= total: batch = min(max, total-done), done\' = done+batch <= total, 0 is returned iff the source is exhausted, other sources untouched, lock released (so the batches of a source sum to its total by induction)', bound='2 sources, all 64-bit counters symbolic; std::vector members given by their begin/end pointers')]
+    H.append(AHarness('H4b_batch_race', 'c01_packets.cpp', None, threads=['h4b_t0', 'h4b_t1'], setup='h4b_setup', post='h4b_post', nsteps=10, unwind=5, unwindset={'main.0': 11}, defs=dd, cflags=cf, inline_all=True, timeout=1800, native_replay=False, tiers=('thorough',),
+            what='get_photon_batch || get_photon_batch on the SAME source: the two batches add up to min(max0+max1, total-done) (nothing lost or handed out twice, including the racy unlocked early-out), done counter exact at quiescence, source lock released',
+            bound='2 sources, totals and batch sizes symbolic in [0,255] (the SAT query took 10 min at this width and did not finish at 64 bits), all interleavings of the atomic operations within 10 scheduled steps (longer spins assumed away); sequentially consistent atomics'))
     return H
 
 def run(tier, only=None):
